@@ -177,6 +177,11 @@ class Taint(object):
 
 def check(run):
     R = run
+    R.rule('C01.shared', 'objects created once per class / per function definition (class-level attributes, parameter '
+           'defaults) are only read: no buffer, validator, poll object, header list or option dict is shared between '
+           'connections', 2)
+    from .common import shared_state
+    shared_state(R, 'C01.shared')
     R.rule('C01.alias', 'no view of the reused receive buffer reaches a yield / coroutine send / field or container '
                         'store / return along _recv -> run -> WebSocket.feed -> WebsocketStream.feed -> Parser.feed', 6)
     R.rule('C01.conserve', 'each frame pulled from the parser is consumed exactly once on every path; the fragment list is '
@@ -197,6 +202,11 @@ def check(run):
     C05.awaitables_fresh(R, RID='C01.length')
     join(R)
     C05.track(R, RID='C01.bookkeeping')
+    from . import C06
+    with R.as_rule('C01.dispatch'):
+        C05.strict(R)            # Text.text / Close.reason are the strict UTF-8 decode of the whole payload
+    with R.as_rule('C01.join'):
+        C06.wiring(R)            # the decompressor arm of the join: contexts are kept / reset as negotiated
 
 
 # ----------------------------------------------------------------------------------------------- alias
